@@ -466,3 +466,110 @@ pub fn ip_json(p: &IpPkt) -> Value {
     }
     v
 }
+
+// ------------------------------------------------------------------------------------------------
+// DHCPv4 (independent of smoltcp::wire)
+
+#[derive(Clone, Debug, Default)]
+pub struct DhcpMsg {
+    pub op: u8,
+    pub xid: u32,
+    pub ciaddr: [u8; 4],
+    pub yiaddr: [u8; 4],
+    pub chaddr: [u8; 6],
+    pub mtype: u8, // 1 discover 2 offer 3 request 5 ack 6 nak
+    pub server_id: Option<[u8; 4]>,
+    pub lease: Option<u32>,
+    pub t1: Option<u32>,
+    pub t2: Option<u32>,
+    pub mask: Option<[u8; 4]>,
+    pub router: Option<[u8; 4]>,
+    pub requested: Option<[u8; 4]>,
+    pub ok: bool,
+}
+
+impl DhcpMsg {
+    pub fn emit(&self) -> Vec<u8> {
+        let mut b = vec![0u8; 240];
+        b[0] = self.op;
+        b[1] = 1;
+        b[2] = 6;
+        b[4..8].copy_from_slice(&self.xid.to_be_bytes());
+        b[12..16].copy_from_slice(&self.ciaddr);
+        b[16..20].copy_from_slice(&self.yiaddr);
+        b[28..34].copy_from_slice(&self.chaddr);
+        b[236..240].copy_from_slice(&[99, 130, 83, 99]);
+        b.extend_from_slice(&[53, 1, self.mtype]);
+        if let Some(s) = self.server_id {
+            b.extend_from_slice(&[54, 4]);
+            b.extend_from_slice(&s);
+        }
+        if let Some(l) = self.lease {
+            b.extend_from_slice(&[51, 4]);
+            b.extend_from_slice(&l.to_be_bytes());
+        }
+        if let Some(l) = self.t1 {
+            b.extend_from_slice(&[58, 4]);
+            b.extend_from_slice(&l.to_be_bytes());
+        }
+        if let Some(l) = self.t2 {
+            b.extend_from_slice(&[59, 4]);
+            b.extend_from_slice(&l.to_be_bytes());
+        }
+        if let Some(m) = self.mask {
+            b.extend_from_slice(&[1, 4]);
+            b.extend_from_slice(&m);
+        }
+        if let Some(m) = self.router {
+            b.extend_from_slice(&[3, 4]);
+            b.extend_from_slice(&m);
+        }
+        b.push(255);
+        b
+    }
+    pub fn parse(b: &[u8]) -> Option<DhcpMsg> {
+        if b.len() < 240 || b[236..240] != [99, 130, 83, 99] {
+            return None;
+        }
+        let mut m = DhcpMsg { op: b[0], xid: u32::from_be_bytes([b[4], b[5], b[6], b[7]]), ok: true, ..Default::default() };
+        m.ciaddr.copy_from_slice(&b[12..16]);
+        m.yiaddr.copy_from_slice(&b[16..20]);
+        m.chaddr.copy_from_slice(&b[28..34]);
+        let mut i = 240;
+        while i < b.len() {
+            let k = b[i];
+            if k == 255 {
+                break;
+            }
+            if k == 0 {
+                i += 1;
+                continue;
+            }
+            if i + 1 >= b.len() {
+                m.ok = false;
+                break;
+            }
+            let l = b[i + 1] as usize;
+            if i + 2 + l > b.len() {
+                m.ok = false;
+                break;
+            }
+            let v = &b[i + 2..i + 2 + l];
+            let a4 = |v: &[u8]| -> Option<[u8; 4]> { if v.len() >= 4 { Some([v[0], v[1], v[2], v[3]]) } else { None } };
+            let u4 = |v: &[u8]| -> Option<u32> { if v.len() == 4 { Some(u32::from_be_bytes([v[0], v[1], v[2], v[3]])) } else { None } };
+            match k {
+                53 if l == 1 => m.mtype = v[0],
+                54 => m.server_id = a4(v),
+                51 => m.lease = u4(v),
+                58 => m.t1 = u4(v),
+                59 => m.t2 = u4(v),
+                1 => m.mask = a4(v),
+                3 => m.router = a4(v),
+                50 => m.requested = a4(v),
+                _ => {}
+            }
+            i += 2 + l;
+        }
+        Some(m)
+    }
+}
